@@ -49,6 +49,19 @@ CHECKS = {
     'C10': ('explicit-state BFS of the DSL value graph; structural width model of the assertion operand',
             'Every lookbehind transition: NonFixedWidthPatternException iff the operand width range is not a single value.',
             '3 C10', GRAPH_NOTE),
+    'C11': ('explicit-state search of the per-instance cache protocol to closure + all histories to depth 3/5; exhaustive texts',
+            'For every pattern every history over compile/get_compiled_pattern(T|F)/purge up to the depth bound is replayed on a fresh instance; '
+            'each distinct abstract state (compiled?, in re cache?) gets all six observers on all texts up to the length bound, compared with re itself.',
+            '3 C11', 'Trusted: re.finditer/search/fullmatch under MULTILINE|DOTALL on str(p).'),
+    'C12': ('exhaustive enumeration of group layouts x texts x getter parameters against re.Match',
+            'All layouts of <= 3 (4) groups x all texts over {a,b,c} up to length 5 (6) x 4 getters x include_empty x relative_to_match x get/iterate.',
+            '3 C12', 'Trusted: re.Match.group/span/groupdict.'),
+    'C13': ('exhaustive enumeration of patterns x texts x counts x replacements; reconstruction oracle',
+            'split pieces interleaved with matches/captures must rebuild the source; replace equals substitution of the first count finditer spans.',
+            '3 C13', 'Trusted: re.finditer spans. Replacement strings are plain.'),
+    'C14': ('exhaustive enumeration of is_path methods x patterns x file contents x window sizes',
+            'Every method with is_path is called on a real UTF-8 file and on its content; windows are compared with slice arithmetic on the text.',
+            '3 C14', 'File contents avoid \\r. Files live in a temp dir the check creates and removes.'),
     'C20': ('explicit-state BFS of the DSL value graph with operand snapshots; history search; set-order exploration',
             'Operands are snapshotted before/after every transition; rebuilt expressions must reach the same state.',
             '3 C20', GRAPH_NOTE),
